@@ -182,7 +182,7 @@ theorem on_codes (s : Schema) (d : Document) (r : RuleId) (σ : (ruleOf r).σ) (
   · simp only [valuesOfCorrectType, Rule.stateless, validateValue, validateCompositeValue]
     repeat' split
     all_goals simp
-  · simp only [uniqueDirectivesPerLocation, Rule.stateless]
+  · simp only [uniqueDirectivesPerLocation, Rule.stateless, udCheck]
     have h : ∀ (ds : List Directive) (seen : List Name),
         AllCode .uniqueDirectivesPerLocation (duplicateDirectiveErrors s ds seen) := by
       intro ds
